@@ -30,10 +30,21 @@ def preload():
 
 
 def gen_case(rng, tier, idx):
-    spec = gen_mdp_spec(rng, proper=True, discounts=(0.5, 0.9, 0.95, 1.0, 1.0),
-                        rewards=rng.choice((None, None, (-2.0, -1.0, -1.0, 0.0, 1.0, 0.5), (-1.0, -2.0, -1.0, -3.0), (0.0, -1.0))))
-    cfg = dict(heur=gen_heuristic(rng), eps=rng.choice((1e-2, 1e-3, 1e-5)), rao=rng.random() < 0.6, seed=rng.choice((0, 1, 9)),
-               reuse=rng.randrange(1000) if rng.random() < 0.2 else None)
+    # 15% of runs: the configuration in which the order of tied actions matters most - the model hands out ONE list
+    # object for every state (QuickTabularMDP(actions=[...]) does), actions are shuffled, rewards are integers and the
+    # heuristic is the optimistic constant, so exact Q ties between a verified and an unexplored action are common
+    tie_cfg = rng.random() < 0.15
+    if tie_cfg:
+        spec = gen_mdp_spec(rng, proper=True, discounts=(1.0, 1.0, 0.5), uniform_actions=True, min_states=3,
+                            rewards=rng.choice(((-1.0, -2.0, -1.0, -3.0), (0.0, -1.0), (-1.0, -1.0, -2.0))))
+        h = gen_heuristic(rng, kinds=('zero', 'zero', 'const'))
+        cfg = dict(heur=h, eps=rng.choice((1e-2, 1e-3)), rao=True, seed=rng.choice((0, 1, 9)),
+                   reuse=None, alias='shared')
+    else:
+        spec = gen_mdp_spec(rng, proper=True, discounts=(0.5, 0.9, 0.95, 1.0, 1.0), uniform_actions=rng.random() < 0.3,
+                            rewards=rng.choice((None, None, (-2.0, -1.0, -1.0, 0.0, 1.0, 0.5), (-1.0, -2.0, -1.0, -3.0), (0.0, -1.0))))
+        cfg = dict(heur=gen_heuristic(rng), eps=rng.choice((1e-2, 1e-3, 1e-5)), rao=rng.random() < 0.6, seed=rng.choice((0, 1, 9)),
+                   reuse=rng.randrange(1000) if rng.random() < 0.2 else None, alias=rng.choice(('fresh', 'fresh', 'cached', 'shared')))
     plain = idx % 4 == 0
     sched = gen_sched(rng, ('P',) if plain else ('P', 'U', 'R', 'R'), budget_choices=(20, 100, 400, 2000), cap=300000)
     return dict(spec=spec, cfg=cfg, sched=sched)
@@ -54,7 +65,7 @@ def execute(case, script=None):
 
 
 def _execute(lr, view, cfg, ctx, sched):
-    mdp = make_mdp(view, ctx)
+    mdp = make_mdp(view, ctx, alias=cfg.get('alias', 'fresh'))
     sk, ak, sid, aid = view.sk, view.ak, view.sid, view.aid
     g, eps = view.gamma, cfg['eps']
     Vs, Qs = optimal_values(view)
@@ -125,7 +136,9 @@ def _execute(lr, view, cfg, ctx, sched):
                 ns = sid[lv['s']]
             except Exception:
                 return
-            if len(vis) >= 2 and vis[-1] == ns and ctx.last and ctx.last[0] == 'succ' and ctx.last[1] == vis[-2]:
+            # (a trial that starts in a not-yet-labelled absorbing state steps through its self-loop: absorbing states are worth 0
+            # under every action, so there is no greedy choice to check there)
+            if len(vis) >= 2 and vis[-1] == ns and ctx.last and ctx.last[0] == 'succ' and ctx.last[1] == vis[-2] and vis[-2] not in view.absorbing:
                 prev, a = vis[-2], ctx.last[2]
                 ctx.check(view.T[prev, a].get(ns, 0) > 0, 'trial-step', lambda: f"timestep {st['t']}: sampled successor {ns} has probability 0 under ({prev},{a})")
                 qs = {b: sum(p * (view.R[prev, b, t] + g * valof(Vd, t)) for t, p in view.T[prev, b].items()) for b in view.A[prev]}
@@ -165,7 +178,7 @@ def _execute(lr, view, cfg, ctx, sched):
                 st['main'] = False
                 sview = MDPView(sib)
                 W0, ctx.W = ctx.W, game_W(sview)
-                planner.plan_on(make_mdp(sview, ctx))
+                planner.plan_on(make_mdp(sview, ctx, alias=cfg.get('alias', 'fresh')))
                 ctx.W = W0
                 st['main'] = True
             r = planner.plan_on(mdp)
